@@ -767,7 +767,7 @@ fn history_corner() -> Option<(St, Sealed, Vec<(String, HistMember)>)> {
     let g = w.genesis.clone().seal(None);
     let mut u = g.next_unsealed();
     let (newsig, legacy) = (cov_new(1), cov_legacy(1));
-    let outs = vec![out(newsig.hash(), 1000, Denom::Mel), out(legacy.hash(), 2000, Denom::Mel), out_t(3000, Denom::Mel), out_t(10_000_000 - 6000, Denom::Mel)];
+    let outs = vec![out(newsig.hash(), 1000, Denom::Mel), out(legacy.hash(), 2000, Denom::Mel), out_t(3000, Denom::Mel), out_t(4000, Denom::Mel), out(newsig.hash(), 1500, Denom::Mel), out_t(10_000_000 - 11_500, Denom::Mel)];
     let fund = tx_t(TxKind::Normal, vec![melstructs::CoinID::zero_zero()], outs, 0, vec![]);
     u.apply_tx(&fund).ok()?;
     let parent = u.seal(None);
@@ -812,6 +812,19 @@ fn history_corner() -> Option<(St, Sealed, Vec<(String, HistMember)>)> {
             members.push((format!("{}:block-with-valid", name), HistMember::Block(h, valid.clone())));
         }
     }
+    // two inputs, the second one under the signature covenant: a transaction that fails at its *second* input has by then gone
+    // through part of its validation (whatever that leaves behind on the validating thread must not reach the next transaction)
+    {
+        let mut t = mktx(TxKind::Normal, vec![fund.output_coinid(3), fund.output_coinid(4)], vec![out_t(5500, Denom::Mel)], 0, vec![cov_true().to_bytes(), newsig.to_bytes()], vec![0xd7]);
+        let sig: bytes::Bytes = key(1).1.sign(&t.hash_nosigs().0).into();
+        t.sigs = vec![bytes::Bytes::new(), sig.clone()];
+        let mut bad = t.clone();
+        bad.sigs = vec![bytes::Bytes::new(), flip(&sig)];
+        let missing = mktx(TxKind::Normal, vec![fund.output_coinid(3), melstructs::CoinID { txhash: fund.hash_nosigs(), index: 200 }], vec![out_t(5500, Denom::Mel)], 0, vec![cov_true().to_bytes()], vec![0xd8]);
+        members.insert(0, ("two-inputs:second-input-does-not-exist".into(), HistMember::Batch(missing)));
+        members.insert(0, ("two-inputs:second-signature-bit-flipped".into(), HistMember::Batch(bad)));
+        members.push(("two-inputs:valid".into(), HistMember::Batch(t)));
+    }
     // a faucet and its twin carrying a signature nobody asked for
     let f = tx_t(TxKind::Faucet, vec![], vec![out_t(5, Denom::Mel)], 0, b"hist".to_vec());
     let mut f2 = f.clone();
@@ -844,8 +857,9 @@ fn hist_eval(st: &St, parent: &Sealed, m: &HistMember) -> String {
 /// `mcheck __child c03 <member index>`: the verdict of a process that has validated nothing else.
 pub fn child_main(args: &[String]) {
     let i: usize = args.first().and_then(|s| s.parse().ok()).unwrap_or(usize::MAX);
+    let one = rayon::ThreadPoolBuilder::new().num_threads(1).build().unwrap();
     let out = match history_corner() {
-        Some((st, parent, members)) if i < members.len() => json!({"member": members[i].0, "verdict": hist_eval(&st, &parent, &members[i].1)}),
+        Some((st, parent, members)) if i < members.len() => json!({"member": members[i].0, "verdict": one.install(|| hist_eval(&st, &parent, &members[i].1))}),
         _ => json!({"member": "?", "verdict": "corner-not-buildable"}),
     };
     println!("{}", out);
@@ -871,6 +885,7 @@ fn process_history(run: &Run, thorough: bool) {
         run.validated();
     }
     let n = members.len();
+    let one = rayon::ThreadPoolBuilder::new().num_threads(1).build().unwrap();
     let depth = if thorough { 4 } else { 3 };
     let mut seqs: u64 = 0;
     let mut idx = vec![0usize; 1];
@@ -879,7 +894,8 @@ fn process_history(run: &Run, thorough: bool) {
         seqs += 1;
         for &i in &idx {
             run.transition();
-            let got = hist_eval(&st, &parent, &members[i].1);
+            // on a pool of one worker: what one evaluation leaves behind on its thread is met by the next one
+            let got = one.install(|| hist_eval(&st, &parent, &members[i].1));
             run.validated();
             if got != fresh[i] {
                 let names: Vec<&str> = idx.iter().map(|j| members[*j].0.as_str()).collect();
